@@ -100,8 +100,10 @@ def scheduler_state():
 
 def make_case(cs, rnd):
     """One computation of a history: (program, options)."""
-    kind = rnd.choice(["plain", "plain", "ctxfault", "ctxfault", "before", "runaway", "runaway", "nonasync", "evilflush"])
+    kind = rnd.choice(["plain", "plain", "ctxfault", "ctxfault", "before", "runaway", "runaway", "nonasync", "evilflush", "closefail"])
     opts = {"kind": kind}
+    if kind == "closefail":
+        return closefail_program(rnd), opts
     if kind == "nonasync":
         prog = gen.generate(cs, PROFILE_NA)
     else:
@@ -133,6 +135,46 @@ def make_case(cs, rnd):
         else:
             opts["kind"] = "plain"
     return prog, opts
+
+
+def closefail_program(rnd):
+    """A task is failed from OUTSIDE its code while suspended (an inner context cannot be re-activated after the
+    flush), and when its generator is then closed, the body raises once more (an outer context's pause() fails in
+    __exit__, or a finally block raises): nobody is left to take that second exception."""
+    n = [0]
+
+    def item():
+        n[0] += 1
+        return ["leaf", ["item", rnd.randrange(2), "cf%d" % n[0]]]
+
+    inner_n = rnd.choice([1, 1, 2])
+    # the victim's body: with outer: with inner: yield item (x inner_n)
+    ys = [["yield", item()] for _ in range(inner_n)]
+    body = [["with", ["actx", "cf_outer"], [["with", ["actx", "cf_inner"], ys]]]]
+    if rnd.random() < 0.4:
+        body = [["with", ["actx", "cf_ok"], body]]
+    if rnd.random() < 0.3:
+        body.insert(0, ["yield", item()])
+    victim = {"style": rnd.choice(["asynq", "method", "proxy"]), "ret": "return", "body": body}
+    sib = {"style": "asynq", "ret": "return", "body": [["with", ["actx", "cf_sib"], [["yield", item()], ["yield", item()]]]]}
+    members = [["leaf", ["call", "cfc1", 1]], ["leaf", ["call", "cfc2", 2]]]
+    rnd.shuffle(members)
+    root_body = [["yield", [rnd.choice(["list", "tuple"]), members]]]
+    if rnd.random() < 0.5:
+        root_body = [["try", root_body, "exc", [["yield", item()]], []], ["yield", item()]]
+    k = rnd.randint(1, inner_n)  # the re-activation that fails: after the k-th suspension
+    return {
+        "nodes": [{"style": "asynq", "ret": "return", "body": root_body}, victim, sib],
+        "root": 0,
+        "shared": [],
+        "kinds": 2,
+        "faults": {},
+        "flush_faults": {},
+        # inner: resume() call 1 is the entry, call k+1 the k-th re-activation; outer: pause() call k was the k-th
+        # suspension, call k+1 is the one made by __exit__ while the generator is closed
+        "ctx_faults": {"cf_inner": ["resume", k + 1, rnd.choice(["exc", "frozen", "falsy"])], "cf_outer": ["pause", k + 1, rnd.choice(["exc", "exc", "tasky"])]},
+        "defaults": {"sv0": "dflt-sv0", "sv1": "dflt-sv1", "at0": "dflt-at0"},
+    }
 
 
 def _strip_tries(block):
@@ -207,6 +249,8 @@ def run_unit(unit, progress):
             tl.harvest(rt, c)
             inc("active_task_checks_in_scheduler_run_code", getattr(rt, "n_stale_active_checks", 0))
             inc("after_sync_checks", getattr(rt, "n_after_sync", 0))
+            if opts["kind"] == "closefail" and sum(1 for ev in rt.log if ev[0] == "ctx_fault") >= 2:
+                inc("bodies_raising_while_their_generator_is_closed")
             inc("sync_waits_on_a_task_created_elsewhere", sum(1 for ev in rt.log if ev[0] == "sync_enter" and ev[2][:1] == ("S",)))
             history.append({"program": prog, "opts": opts, "how": how, "outcome": tl.short(out[:2], 160)})
             ended_exc = out[0] == "exc"
@@ -337,6 +381,7 @@ def reach(c, tier):
         "ended_by_NonAsync",
         "ended_by_failing_flush_call",
         "sync_waits_on_a_task_created_elsewhere",
+        "bodies_raising_while_their_generator_is_closed",
     ):
         if not c.get(k):
             out.append("%s is zero" % k)
